@@ -112,13 +112,17 @@ var poolsW = func() [][2]map[byte][]leaf {
 	return out
 }()
 
-// extraLeaves: literals that only the signed-operand family uses (pool 'x'; the same in every world)
-func extraLeaves() []leaf {
-	return []leaf{
+// extraLeaves: leaves that only the families use (pool 'x'; the same values in every world): the literals of
+// the signed-operand family, the empty string, and — last — the haystacks of the long-haystack family
+// (longin.go; pre spells their context variables for the loop form)
+func extraLeaves(pre string) []leaf {
+	out := []leaf{
 		ilit(1), ilit(3), ilit(5), ilit(7),
 		lf("lit", sv("n="), "'n='"),
 		listOf(ilit(4), ilit(2), ilit(1)),
+		lf("lit", sv(""), "''"),
 	}
+	return append(out, hayLeaves(pre)...)
 }
 
 func ints(xs []int64) []interface{} {
@@ -141,7 +145,7 @@ func contextOf(w world) map[string]interface{} {
 		}
 		return out
 	}
-	return map[string]interface{}{
+	m := map[string]interface{}{
 		"a": int(w.a), "b": int(w.b), "t": w.t, "f": w.f, "s": w.s, "n": w.n,
 		"big": int(w.big), "c": int(w.c),
 		"gs": ints(w.gs), "ms": ints(w.ms), "ns": strs(w.ns), "xs": ints(w.xs), "bs": bs, "ss": strs(w.ss),
@@ -149,6 +153,10 @@ func contextOf(w world) map[string]interface{} {
 			"g": int(w.og), "c": int(w.oc), "xs": ints(w.oxs)},
 		"seq": []interface{}{100, 101, 102, 103, 104, 105, 106, 107, 108, 109},
 	}
+	for k, v := range hayContext {
+		m[k] = v // the haystacks of the long-haystack family: the same in every world
+	}
+	return m
 }
 
 // inWorld: the same tree with the values of world w; loop = spelled for the body of `{% for w in ws %}`
@@ -326,6 +334,8 @@ func constantForms(t byte) []sx {
 type signedCase struct {
 	key   string
 	trees []sx
+	// always: the case is non-trivial whatever its values do (long-haystack family: more than 50 elements)
+	always bool
 }
 
 // signedCases: for every binary typing and every signed form of an operand type, the trees
